@@ -605,11 +605,11 @@ class StyleElement(TTMLElement):
 
     if issubclass(parent_ctx.ttml_class, RegionElement):
 
-      for style_prop, value in style_ctx.styles.items():
-        region_style = parent_ctx.model_element.get_style(style_prop)
+      # nested style elements are merged in document order: a later one overrides an earlier one (inline and
+      # referential styling are applied after all children have been processed)
 
-        if region_style is None:
-          parent_ctx.model_element.set_style(style_prop, value)
+      for style_prop, value in style_ctx.styles.items():
+        parent_ctx.model_element.set_style(style_prop, value)
 
       return None
 
